@@ -875,6 +875,39 @@ fn bend_project(rng: &mut Rng, p: &mut Project) -> Vec<String> {
                             .collect(),
                         _ => vec![],
                     };
+                    // ... or the type re-uses the name of a virtual function it inherits.
+                    let inherited_virtual: Vec<String> = bases
+                        .first()
+                        .and_then(|b| p.items[*b].vslots.as_ref())
+                        .map(|vs| {
+                            vs.iter()
+                                .filter(|f| !f.name.starts_with("_vfunc_"))
+                                .map(|f| f.name.clone())
+                                .collect()
+                        })
+                        .unwrap_or_default();
+                    if !inherited_virtual.is_empty() && rng.chance(1, 2) {
+                        let name = rng.pick(&inherited_virtual).clone();
+                        let m = p.items[d].module;
+                        if let ItemKind::Type { impl_funcs, .. } = &mut p.items[d].kind {
+                            if impl_funcs.is_empty() {
+                                p.modules[m].order.push(Decl::Impl(d));
+                            }
+                            impl_funcs.push(Func {
+                                vis: true,
+                                name,
+                                recv: Some(false),
+                                args: vec![],
+                                ret: None,
+                                address: Some(0x9300),
+                                index: None,
+                                cc: None,
+                                doc: None,
+                            });
+                        }
+                        done.push("knob:function_named_like_inherited_virtual".to_string());
+                        continue;
+                    }
                     let name = format!("shared_fn_{}", rng.below(3));
                     let mk = |addr: usize| Func {
                         vis: true,
